@@ -61,9 +61,6 @@ def base_types(u):
     u.fn('src/base.rs', 'new', impl='impl EncodingPacket', ret='r', ensures=['r.payload_id == payload_id', 'r.data == data'])
     u.raw('}')
     u.struct('src/symbol.rs', 'Symbol')
-    u.raw('impl Symbol {')
-    u.fn('src/symbol.rs', 'as_bytes', impl='impl Symbol', ret='r', ensures=['r@ == self.value@'])
-    u.raw('}')
 
 
 def build():
@@ -71,6 +68,9 @@ def build():
     u.raw(common.PRELUDE)
     u.raw('verus! {')
     base_types(u)
+    u.raw('impl Symbol {')
+    u.fn('src/symbol.rs', 'as_bytes', impl='impl Symbol', ret='r', ensures=['r@ == self.value@'])
+    u.raw('}')
     u.struct('src/symbol_slab.rs', 'SymbolSlab')
     u.raw('impl SymbolSlab {')
     u.fn('src/symbol_slab.rs', 'symbol_size', impl='impl SymbolSlab', ret='r', ensures=['r == self.symbol_size'])
